@@ -84,6 +84,15 @@ impl<'a> Gen<'a> {
         if r.payload_raw {
             let b = serde_json::to_vec(&json!({"nonce": n, "script": s})).unwrap();
             (Binary::from(b.clone()), Binary::from(b))
+        } else if r.payload.len() == 1 && r.payload[0].ty == "Binary" {
+            // a lone typed Binary travels as a JSON string (base64)
+            let mut bytes = n.to_be_bytes().to_vec();
+            bytes.extend(self.rng.bytes(3));
+            let v = json!(Binary::from(bytes).to_base64());
+            (
+                Binary::from(serde_json::to_vec(&json!([v])).unwrap()),
+                Binary::from(serde_json::to_vec(&v).unwrap()),
+            )
         } else if r.payload.len() == 1 {
             let v = json!({"nonce": n, "script": s});
             (
@@ -102,6 +111,12 @@ impl<'a> Gen<'a> {
         let pool = Pool { addrs: self.accounts };
         let pick = self.rng.below(10);
         match mode {
+            DataMode::Typed | DataMode::Opt if ty == "Option<u64>" => match pick {
+                0 | 1 => None,
+                2 => Some(Binary::from(b"null".to_vec())),
+                3 => Some(Binary::from(b"\"seven\"".to_vec())),
+                _ => Some(Binary::from(self.rng.below(1000).to_string().into_bytes())),
+            },
             DataMode::Typed | DataMode::Opt => match pick {
                 0 | 1 => None,
                 2 => Some(Binary::from(serde_json::to_vec(&gen_wrong(self.rng, ty)).unwrap())),
@@ -164,7 +179,7 @@ impl<'a> Gen<'a> {
             }
             let rs = self.small_script(from, depth);
             let (given, _) = self.payload(sig, &rs);
-            ReplyReq::Handler { name: name.to_string(), payload: given, recv: self.rng.below(3) as u8 }
+            ReplyReq::Handler { name: name.to_string(), payload: given, recv: self.rng.below(12) as u8 }
         } else {
             // hand-made sub-message: any id (also unknown ones), any trigger
             let known = self.rng.chance(3, 4);
@@ -172,11 +187,18 @@ impl<'a> Gen<'a> {
                 let name = *self.rng.pick(&names);
                 let sig = t.methods(name)[0];
                 let rs = self.small_script(from, depth);
-                (t.names[name], self.payload(sig, &rs).1)
+                let good = self.payload(sig, &rs).1;
+                // hand-made sub-messages do not have to carry a payload the handler can decode
+                let p = match self.rng.below(6) {
+                    0 => Binary::default(),
+                    1 => Binary::from(self.rng.bytes(4)),
+                    _ => good,
+                };
+                (t.names[name], p)
             } else {
                 (1000 + self.rng.below(5), Binary::from(b"{}".to_vec()))
             };
-            ReplyReq::Raw { id, on: self.rng.below(3) as u8, payload }
+            ReplyReq::Raw { id, on: self.rng.below(4) as u8, payload }
         };
         // --- the callee and what it does
         let peers: Vec<&ContractInfo> = self.contracts.iter().collect();
@@ -386,7 +408,13 @@ impl Profile for F3 {
                 let p = if self.prop == "C09" { 2 } else { 8 };
                 if ok && rng.chance(1, p) {
                     let _ = reg.get(&cid);
-                    let f = match rng.below(9) {
+                    let f = match rng.below(10) {
+                        9 => {
+                            // well-formed JSON of a declared data type, but not inside an envelope
+                            let pool = Pool { addrs: &addrs };
+                            let ty = *rng.pick(&["Pt", "String", "u64"]);
+                            Fault::ReplyDataReplace(Binary::from(serde_json::to_vec(&gen_value(rng, ty, &pool)).unwrap()))
+                        }
                         0 | 1 => Fault::ReplyDataDrop,
                         2 => Fault::ReplyDataTrunc(rng.below(64) as usize),
                         3 => Fault::ReplyDataFlip(rng.below(64) as usize, rng.below(8) as u8),
